@@ -29,6 +29,11 @@ PROBES = {
     "add_for_level": "probe_collect_statistic",
     "dlt_message": "probe_dlt_message_intern",
     "forward_to_next_storage_header": "probe_forward",
+    "Message::as_bytes": "probe_writers",
+    "PayloadContent::as_bytes": "probe_writers",
+    "StorageHeader::as_bytes": "probe_writers",
+    "StandardHeader::as_bytes": "probe_writers",
+    "ExtendedHeader::as_bytes": "probe_writers",
 }
 
 
